@@ -87,6 +87,19 @@ def explore(res, scale=1, seed=None):
     res.account(rows9)
     for k, v in stats9.items():
         res.distribution["streamed." + k] = res.distribution.get("streamed." + k, 0) + v
+    # "nothing else is written": the request that FOLLOWS a failed query on the same client must start with its own
+    # first byte (leftover writer state of the failed query would put other bytes, or a panic, in front of it):
+    # a reduced run of the steered C04 family, whose oracle judges the follow-up request
+    c04 = importlib.import_module("checks.c04")
+    named = []
+    for base in c04.base_scenarios("quick"):
+        for fname, sc_ in c04.fault_variants(base, "quick"):
+            if base[0].startswith("insert") and fname.split("-")[0] in ("none", "exception", "oninput"):
+                named.append((base[0] + "/" + fname, sc_))
+    import random
+    lines4 = c04.plans_for(named, False, 450 * scale, random.Random(seed), res, "c02seq")
+    c04.run_gated(res, "c04", lines4, seed, C.workdir(res.pid), 0,
+                  "correspondence(request following a failed query: tokens written, follow-up Ping)")
     rows, model_raw, stats, wd = run_family(res, "c02", scale, seed, BUDGET[res.tier])
     # after " # ": byte equality of the model's sender with the implementation - a diagnostic of model
     # drift, not part of the property (C02 does not pin the bytes)
